@@ -1,5 +1,6 @@
 use celestia_proto::share::eds::byzantine::pb::BadEncoding as RawBadEncodingFraudProof;
 use celestia_proto::share::eds::byzantine::pb::Share as RawShareWithProof;
+use nmt_rs::NamespaceId;
 use tendermint::block::Height;
 use tendermint_proto::Protobuf;
 
@@ -150,12 +151,14 @@ impl FraudProof for BadEncodingFraudProof {
 
         for (n, share) in rebuilt_shares.iter().enumerate() {
             let ns = if n < ods_width {
+                // Reconstructed data isn't guaranteed to carry a valid namespace,
+                // so take its raw id, the same way the committed tree was built.
                 // safety: length must be correct
-                Namespace::from_raw(&share[..NS_SIZE]).unwrap()
+                NamespaceId(share[..NS_SIZE].try_into().unwrap())
             } else {
-                Namespace::PARITY_SHARE
+                *Namespace::PARITY_SHARE
             };
-            if nmt.push_leaf(share, *ns).map_err(Error::Nmt).is_err() {
+            if nmt.push_leaf(share, ns).map_err(Error::Nmt).is_err() {
                 // we couldn't rebuild the nmt from reconstructed data
                 // befp is legit
                 return Ok(());
